@@ -12,7 +12,9 @@ import os, sys, json, random, shutil, subprocess, hashlib, time, collections, re
 from . import core
 
 TIERS = {'quick': dict(depth=3, depthcfg=2, nsim=150, simlen=50, model_calls=2),
-         'thorough': dict(depth=4, depthcfg=3, nsim=2000, simlen=50, model_calls=3)}
+         # (depth 4 over the 39-call menu would be 2.3 M histories: every sequence of 3 calls under every cache configuration,
+         #  and twenty thousand simulated histories of 50 calls instead)
+         'thorough': dict(depth=3, depthcfg=3, nsim=20000, simlen=50, model_calls=3)}
 CONFIGS = ['valid', 'empty', 'other', 'oldsig', 'oldrules']
 TABMODS = {'intel': 'ply_ia32_intel_20150429.py', 'att': 'ply_ia32_att_20150429.py'}
 REFMUL = 64          # observation reference = history id * REFMUL + position
